@@ -11,6 +11,7 @@ import StathamModel.Good
 import StathamModel.SerJson
 import StathamModel.Orderer
 import StathamModel.Py.Repr
+import StathamModel.Format
 open Lean (Json)
 open Statham Statham.Codec
 
@@ -110,6 +111,31 @@ def handle (req : Json) : R Json := do
     let key ← decKey (← req.getObjVal? "key")
     let el ← decElem (← req.getObjVal? "elem")
     pure (Json.mkObj [("expr", encExpr (propExpr key (reprExpr el)))])
+  | "format_history" => do
+    -- checkers: [[id, [[string, bool]…]]…]; ops: {"register": name, "checker": id} | {"check": name, "value": v}
+    let cks ← (← (← req.getObjVal? "checkers").getArr?).toList.mapM fun c => do
+      let p ← c.getArr?
+      if p.size != 2 then throw "bad checker"
+      let rows ← (← p[1]!.getArr?).toList.mapM fun r => do
+        let q ← r.getArr?
+        if q.size != 2 then throw "bad checker row"
+        pure (← q[0]!.getStr?, ← q[1]!.getBool?)
+      pure (← p[0]!.getStr?, rows)
+    let mkChecker (id : String) : R Checker :=
+      match cks.lookup id with
+      | some rows => pure fun s => (rows.lookup s).getD true
+      | none => throw s!"unknown checker {id}"
+    let init ← (← (← req.getObjVal? "initial").getArr?).toList.mapM fun kv => do
+      let p ← kv.getArr?
+      if p.size != 2 then throw "bad initial entry"
+      pure (← p[0]!.getStr?, ← mkChecker (← p[1]!.getStr?))
+    let ops ← (← (← req.getObjVal? "ops").getArr?).toList.mapM fun o => do
+      match getField o "register" with
+      | some n => pure (RegOp.register (← n.getStr?) (← mkChecker (← (← o.getObjVal? "checker").getStr?)))
+      | none => pure (RegOp.check (← (← o.getObjVal? "check").getStr?) (← decVal (← o.getObjVal? "value")))
+    let (_, outs) := runReg init ops
+    pure (Json.mkObj [("outs", Json.arr (outs.map fun o => Json.str (match o with
+      | .accept => "accept" | .acceptWarn => "accept-warn" | .reject => "reject")).toArray)])
   | "attr_names" => do
     let tables ← getTables req
     let names ← (← (← req.getObjVal? "names").getArr?).toList.mapM (·.getStr?)
